@@ -22,8 +22,15 @@ ASSUMPTIONS = ["64-bit int; segments < 2^32 bytes, segment count < 2^32; bytes a
                "a failed pointer-writing / allocating op ends the compared run (the model keeps no state for a failed op)",
                "fuel of write_ptr/copy_struct: theorems are about Ok results, which are never produced by fuel exhaustion"]
 TECHNIQUE = "Coq proof over an executable model + extracted-model/implementation differential run"
-LEVEL_TEXT = ('Partial proof + differential run. Proved for all arenas/capacities: allocated regions are zeroed, aligned, inside len<=cap and pairwise disjoint; segments stay word aligned and only grow under SetPtr/Set/SetRoot/SetStruct/CopyFrom with all copy branches; every placed pointer resolves with well-formed landing pads; placed_struct_is_spec_valid: the struct pointer just written is resolved by the specification decoder (coq/Spec) to exactly its target, inside the message; heap_inv_partial2 (HeapInv.v): a pointer-level invariant hinv over an object table and a pad table - every pointer slot and the root resolve under the strict rules into exactly one table object, regions inside their segments and pairwise disjoint - preserved by constructors of structs / non-composite lists, data writes inside an object, and setting any slot or the root to a table object with all three placements incl. overwrites; heap_inv_partial: an invariant over all op lists of the interpreter (well-formed segments + sound handle pool) in every reachable state. The full heap_inv (every reachable state satisfies valid_message) is checked by executing the extracted valid_message + spec tree on the real Marshal bytes of every program.')
-LEVEL_NOTE = ("Missing for level proof: heap_inv as an invariant over op lists implying valid_message = VOk (needs the abstract object table of builder_refines); marshal_header_ok is C14's.")
+LEVEL_TEXT = ('Partial proof + differential run. Proved for all arenas/capacities: allocated regions are zeroed, aligned, inside len<=cap and pairwise disjoint; segments stay word aligned and only grow under SetPtr/Set/SetRoot/SetStruct/CopyFrom with all copy branches; every placed pointer resolves with well-formed landing pads; placed_struct_is_spec_valid: the struct pointer just written is resolved by the specification decoder (coq/Spec) to exactly its target, inside the message; C05_heap_inv_sublang (HeapOps.v, HeapValid.v): for the sub-language listed in LEVEL_NOTE every reachable state of every program in every arena configuration with a root word satisfies valid_message = VOk (pool = table, hinv preserved by every op, hinv implies valid_message); heap_inv_partial2 (HeapInv.v): a pointer-level invariant hinv over an object table and a pad table - every pointer slot and the root resolve under the strict rules into exactly one table object, regions inside their segments and pairwise disjoint - preserved by constructors of structs / non-composite lists, data writes inside an object, and setting any slot or the root to a table object with all three placements incl. overwrites; heap_inv_partial: an invariant over all op lists of the interpreter (well-formed segments + sound handle pool) in every reachable state. The full heap_inv (every reachable state satisfies valid_message) is checked by executing the extracted valid_message + spec tree on the real Marshal bytes of every program.')
+LEVEL_NOTE = ("Proved over op lists (C05_heap_inv_sublang): valid_message = VOk in every reachable state, all arena "
+              "configurations with a root word, for the sub-language NewStruct, NewUInt8..64List, NewBitList, NewPointerList, "
+              "NewVoidList, NewData/NewText, SetUint8..64, SetBit, UInt8..64List.Set, BitList.Set, Struct.SetPtr and Message.SetRoot within one message (null, "
+              "empty-struct, near, far+pad, double-far+pad, overwrites) and the read-only accessors. NOT covered by the theorem, "
+              "only by the runs (extracted valid_message + spec decoder on the real bytes): NewCompositeList and composite "
+              "lists, List.Struct members, PointerList.Set, all copy paths of writePtr (SetStruct, "
+              "CopyFrom, list members, cross-message), capabilities, reopen, handle-creating read ops, arenas without a root "
+              "word. marshal_header_ok is C14's.")
 DESIGN_REF = "DESIGN.md section 6, C05"
 
 classify = bc.classify
